@@ -344,6 +344,10 @@ Loop:
 				case ActionSkip:
 					if !isLeaving {
 						_, path = pop(path)
+						if sstack == nil {
+							// the root itself was skipped: nothing is left to visit
+							break Loop
+						}
 						continue
 					}
 				case ActionUpdate:
@@ -357,6 +361,9 @@ Loop:
 							node = result
 						} else {
 							_, path = pop(path)
+							if sstack == nil {
+								break Loop
+							}
 							continue
 						}
 					}
